@@ -2,8 +2,10 @@ use crate::engine::*;
 use serde_json::Value;
 
 pub mod c01;
+pub mod c02;
 pub mod c03;
 pub mod c04;
+pub mod c16a;
 
 pub struct Prop {
     pub info: &'static PropInfo,
@@ -14,7 +16,10 @@ pub struct Prop {
 pub fn all() -> Vec<Prop> {
     vec![
         Prop { info: &c01::INFO, run: c01::run, replay: c01::replay },
+        Prop { info: &c02::INFO, run: c02::run, replay: c02::replay },
         Prop { info: &c03::INFO, run: c03::run, replay: c03::replay },
         Prop { info: &c04::INFO, run: c04::run, replay: c04::replay },
+        Prop { info: &c02::INFO10, run: c02::run10, replay: c02::replay10 },
+        Prop { info: &c16a::INFO, run: c16a::run, replay: c16a::replay },
     ]
 }
